@@ -8,7 +8,7 @@ using sim::Rng;
 std::string gen_name(Rng &rng, const char *prefix, int idx, bool utf8) {
     std::string s = std::string(prefix) + std::to_string(idx);
     if (rng.chance(0.3)) s += "_" + std::string(1, (char)('a' + rng.below(26)));
-    if (utf8 && rng.chance(0.4)) { static const char *u[] = {"\xc3\xa9", "\xce\xb1", "\xe6\x97\xa5", "\xc3\xbc", "\xc5\x81", "e\xcc\x81", "u\xcc\x88", "a\xcc\x80"}; s += u[rng.below(8)]; }   // the last three are NOT in NFC (decomposed): the library must normalise them
+    if (utf8 && rng.chance(0.4)) { static const char *u[] = {"\xc3\xa9", "\xce\xb1", "\xe6\x97\xa5", "\xc3\xbc", "\xc5\x81", "e\xcc\x81", "u\xcc\x88", "a\xcc\x80", "a\xcc\x85\xcc\x81"}; s += u[rng.below(9)]; }   /* the last one (a, U+0305, U+0301) IS in NFC: the acute is blocked by the overline of the same combining class and must not be composed with the a */   // the last three are NOT in NFC (decomposed): the library must normalise them
     if (rng.chance(0.05)) s += std::string(1 + rng.below(40), 'x');
     if (utf8 && rng.chance(0.06)) { s.clear(); int n = 1 + (int)rng.below(6); for (int i = 0; i < n; i++) s += "\xf0\x90\x8c" + std::string(1, (char)(0xb0 + (idx * 7 + i) % 16)); }   // a name made only of 4-byte UTF-8 characters (U+10330..)
     return s;
@@ -224,7 +224,7 @@ Program gen_program(uint64_t seed, const GenParams &gp, const std::string &profi
             if (gp.fill && rng.chance(0.5)) { Op o; o.kind = OP_SET_FILL; o.file = fi; o.a[0] = rng.chance(0.7); emit(o); }
             int nd = first ? (int)rng.range(1, 4) : (int)rng.range(0, 2);
             for (int i = 0; i < nd; i++) { Op o; o.kind = OP_DEF_DIM; o.file = fi; o.name = gen_name(rng, "d", ndim_ctr++, gp.utf8_names); o.a[0] = (gp.recs && f.unlimdim() < 0 && rng.chance(0.4)) ? 0 : rng.range(1, gp.big && rng.chance(0.2) ? 40 : gp.max_dimlen); emit(o); }
-            if (gp.atts) { int na = (int)rng.range(0, 3); for (int i = 0; i < na; i++) { Op o; o.kind = OP_PUT_ATT; o.file = fi; o.var = -1; o.name = gen_name(rng, "ga", natt_ctr++, gp.utf8_names); o.att = gen_att(rng, f.format); emit(o); } }
+            if (gp.atts) { int na = (int)rng.range(0, 3); for (int i = 0; i < na; i++) { Op o; o.kind = OP_PUT_ATT; o.file = fi; o.var = -1; o.name = gen_name(rng, "ga", natt_ctr++, gp.utf8_names); o.att = gen_att(rng, f.format); if (rng.chance(0.08)) o.a[3] = 1 + (long long)rng.below(8); emit(o); } }
             int nv = first ? (int)rng.range(1, 5) : (int)rng.range(0, 3);
             for (int i = 0; i < nv; i++) {
                 Op o; o.kind = OP_DEF_VAR; o.file = fi; o.name = gen_name(rng, "v", nvar_ctr++, gp.utf8_names); o.a[0] = pick_type(rng, f.format);
@@ -371,6 +371,7 @@ Program gen_program(uint64_t seed, const GenParams &gp, const std::string &profi
                             o.att.type = rng.chance(0.6) ? old.type : pick_type(rng, f.format); if (old.type == NC_CHAR || o.att.type == NC_CHAR) o.att.type = old.type;
                             long long maxn = cap / nc_type_size(o.att.type); long long n = rng.chance(0.5) ? maxn : (long long)rng.range(0, maxn); if (rng.chance(0.15)) n = maxn + 1 + (long long)rng.below(3);   // sometimes too large: must be refused
                             for (long long k2 = 0; k2 < n; k2++) o.att.v.push_back((long long)rng.range(1, 100000));
+                            if (gp.erange || rng.chance(0.2)) { if (rng.chance(0.3)) o.a[3] = 1 + (long long)rng.below(8); }
                             emit(o);
                         }
                     }
